@@ -9,19 +9,26 @@ from props import shared
 META = {
     "level": "proof",
     "needs_hooks": True,
-    "technique": "Rocq proofs about a Gallina model of the re-encoder (scalar-only decoding, exact surrogate pairing, "
-                 "encoding detection) + exhaustive/seeded model-vs-implementation correspondence + translation oracle",
-    "claim": "On a Gallina transliteration of src/yaml/encoding.rs it is proved, for all decoder states and all code points, "
-             "that the decoders only ever construct Unicode scalar values, that surrogate pairing is exact, and that "
+    "technique": "Rocq proofs about a Gallina model of the re-encoder (stream-level exactness for every text and every "
+                 "sequence of buffer sizes, and its converse for all input bytes, by invariants over the emit loop; "
+                 "scalar-only decoding, exact surrogate pairing, encoding detection) + exhaustive/seeded "
+                 "model-vs-implementation correspondence + translation oracle",
+    "claim": "On a Gallina transliteration of src/yaml/encoding.rs it is proved that for EVERY text (list of scalar values), "
+             "either width, either byte order, with or without a leading U+FEFF, named or detected encoding, and EVERY "
+             "sequence of read-buffer sizes, what is read through the re-encoder is exactly the UTF-8 of the text, never an "
+             "error (C07_reencoded_stream_exact/_detected); conversely for ALL input bytes, reading to the end without an "
+             "error implies the input is the encoding of a scalar sequence and the output its UTF-8, so ill-formed input "
+             "always ends in an error (C07_success_means_wellformed). Also, for all decoder states and all code points, "
+             "the decoders only ever construct Unicode scalar values, surrogate pairing is exact, and "
              "encoding detection is right for every text starting with a BOM or an ASCII character. The model (decoders, "
              "UTF-8 encoder with its remainder buffer, BOM stripping, from_reader) is diffed against the real re-encoder "
              "for every scalar value (thorough) or edges plus a sample (quick), every ill-formed one- and two-unit class, "
              "with read-buffer sizes 0..9 and source buffer capacities 1..8192. Equality of the translation of encoded "
              "and UTF-8 text is checked on the implementation by the oracle (4 encodings x BOM x slice/reader x "
              "explicit/detected).",
-    "level_note": "Trusted: Coq kernel; hand-written model validated by correspondence; the streaming theorem (output = "
-                  "UTF-8 of the text for every sequence of buffer sizes) is checked by correspondence and oracle, the "
-                  "proved part is per character/state. No axioms.",
+    "level_note": "Trusted: Coq kernel; hand-written model validated by correspondence; the source is fault-free in the "
+                  "model (faults are C12's subject); that libyaml/serde_yaml then parse the same bytes the same way is "
+                  "third-party behaviour observed by the oracle. No axioms.",
     "trusted_base": [
         "Coq 8.16.1 kernel (coqc, full .vo build); no axioms",
         "hand-written Gallina model coq/theories/UtfModel.v of src/yaml/encoding.rs (`<< 10 |` written as `* 1024 +`), "
@@ -31,8 +38,9 @@ META = {
         "libyaml/serde_yaml parse the re-encoded text (shared with the UTF-8 path; third-party)",
     ],
     "assumptions": ["BufRead sources honour the Read/BufRead contracts"],
-    "explanation": "per-character and per-state facts are proved; the streaming behaviour across buffer boundaries is "
-                   "established by correspondence (exhaustive over scalar values in the thorough tier) and by the oracle",
+    "explanation": "the re-encoder's stream-level behaviour is proved for all texts and buffer sizes in both directions; "
+                   "that the real encoder behaves like the model is established by correspondence (exhaustive over "
+                   "scalar values in the thorough tier), end-to-end equality of translations by the oracle",
 }
 
 ENCODINGS = ["utf-16-be", "utf-16-le", "utf-32-be", "utf-32-le"]
